@@ -100,7 +100,7 @@ class Ws:
 		return iter(self.ws)
 
 '''
-SIGNATURE = 'n: int, x: float, b: bool, s: str, xs: list[int], ys: list[str], d: dict[str, int], t: tuple[int, str], c: C, e: E, xss: list[list[int]], dl: dict[str, list[float]], cs: list[C], xa: Ints, rows: Rows, da: DS, xo: list[int] | None, co: C | None, lo: list[C] | None, xn: None | list[int], cn: None | C, ln: None | list[C], gi: G[int], gs: G[str], ig: IG, cd: Cd, wz: Ws'
+SIGNATURE = 'n: int, x: float, b: bool, s: str, xs: list[int], ys: list[str], d: dict[str, int], t: tuple[int, str], c: C, e: E, xss: list[list[int]], dl: dict[str, list[float]], cs: list[C], xa: Ints, rows: Rows, da: DS, xo: list[int] | None, co: C | None, lo: list[C] | None, xn: None | list[int], cn: None | C, ln: None | list[C], gi: G[int], gs: G[str], ig: IG, cd: Cd, wz: Ws, id: int, max: float, hash: str, iter: list[int], min: C'
 
 
 def describe(v) -> str:
@@ -132,7 +132,7 @@ def runtime_types(texts: list[str]) -> list[str]:
 	scope: dict = {}
 	exec(PRELUDE, scope)
 	C, E, G, IG, Cd, Ws = scope['C'], scope['E'], scope['G'], scope['IG'], scope['Cd'], scope['Ws']
-	env = {'n': 3, 'x': 1.5, 'b': True, 's': 'a,b', 'xs': [1, 2], 'ys': ['a', 'b'], 'd': {'a': 1}, 't': (1, 'z'), 'c': C(2), 'e': E.A, 'xss': [[1], [2]], 'dl': {'a': [1.5]}, 'cs': [C(1)], 'xa': [1, 2], 'rows': [[1], [2]], 'da': {'a': 1}, 'xo': [3], 'co': C(1), 'lo': [C(1)], 'xn': [4], 'cn': C(2), 'ln': [C(2)], 'gi': G(1), 'gs': G('s'), 'ig': IG(2), 'cd': Cd(2), 'wz': Ws()}
+	env = {'n': 3, 'x': 1.5, 'b': True, 's': 'a,b', 'xs': [1, 2], 'ys': ['a', 'b'], 'd': {'a': 1}, 't': (1, 'z'), 'c': C(2), 'e': E.A, 'xss': [[1], [2]], 'dl': {'a': [1.5]}, 'cs': [C(1)], 'xa': [1, 2], 'rows': [[1], [2]], 'da': {'a': 1}, 'xo': [3], 'co': C(1), 'lo': [C(1)], 'xn': [4], 'cn': C(2), 'ln': [C(2)], 'gi': G(1), 'gs': G('s'), 'ig': IG(2), 'cd': Cd(2), 'wz': Ws(), 'id': 4, 'max': 2.5, 'hash': 'h', 'iter': [5], 'min': C(3)}
 	out = []
 	for text in texts:
 		try:
